@@ -1,7 +1,107 @@
-(* C05 - parallel sort (placeholder while the proofs are being written) *)
-From Coq Require Import Arith List.
-From ScV Require Import C05.PsortModel.
+(* C05 - parallel sort yields a globally sorted permutation and keeps per-rank counts.
+   Model: C05/PsortModel.v (comparator network of sc_psort_bitonic / sc_merge_bitonic over the global index space,
+   owner search, segment loop, peer records with the two Waitsome loops, per-rank program).  The per-rank program and
+   the Waitsome loops of the same file are co-simulated against the real code on every run. *)
+From Coq Require Import Arith List Bool PeanoNat Permutation ZArith.
+From ScV Require Import C05.PsortModel C05.PsortPerm C05.PsortOwner C05.PsortWait C05.PsortDist.
 Import ListNotations.
-Theorem C05_n2_example : map n2_of [2;3;4;5;8;9;16;17] = [1;2;2;4;4;8;8;16].
-Proof. exact (eq_refl _). Qed.
-Print Assumptions C05_n2_example.
+
+(* (a) permutation and counts: for every count vector (zeros included), every element type, every comparison
+   function (no order property is needed) and every local sort that returns a permutation *)
+Theorem C05_permutation_counts : forall (A : Type) (gt : A -> A -> bool) (sort : bool -> list A -> list A),
+  (forall d l, Permutation (sort d l) l) ->
+  forall counts xs, map (@length A) xs = counts ->
+  Permutation (concat (psort A gt sort counts xs)) (concat xs) /\
+  map (@length A) (psort A gt sort counts xs) = counts.
+Proof. exact psort_permutation. Qed.
+Print Assumptions C05_permutation_counts.
+
+(* ... and for EVERY list of compare-exchange / local-sort operations, so in particular for the operations any
+   subset of the ranks executes in any order *)
+Theorem C05_every_network_permutes : forall (A : Type) (gt : A -> A -> bool) (sort : bool -> list A -> list A),
+  (forall d l, Permutation (sort d l) l) ->
+  forall ops counts xs, map (@length A) xs = counts ->
+  Permutation (concat (split_counts A counts (run A gt sort ops (concat xs)))) (concat xs) /\
+  map (@length A) (split_counts A counts (run A gt sort ops (concat xs))) = counts.
+Proof. exact any_network_permutation. Qed.
+Print Assumptions C05_every_network_permutes.
+
+(* (b) owner search: for every initial guess the loop of sc_bsearch_cumulative returns the unique rank whose
+   interval of the cumulative offsets contains the position; that rank has elements *)
+Theorem C05_owner_search : forall counts pos guess,
+  let off := cumul 0 counts in let P := length counts in
+  pos < cum off P -> guess < P ->
+  let r := bsearch_cumulative (cum off) P pos guess in
+  r < P /\ cum off r <= pos < cum off (S r) /\ 0 < nth r counts 0 /\
+  (forall r', r' < P -> cum off r' <= pos < cum off (S r') -> r' = r).
+Proof. exact psort_owner. Qed.
+Print Assumptions C05_owner_search.
+
+(* `guess - 1` (size_t in C) is only evaluated for guess > 0 *)
+Theorem C05_owner_search_no_wrap : forall c guess pos, c 0 = 0 -> pos < c guess -> 0 < guess.
+Proof. exact owner_search_no_wrap. Qed.
+Print Assumptions C05_owner_search_no_wrap.
+
+(* the segment loop: consecutive non-empty segments covering the compared range, each inside one rank on the lower
+   and inside one rank on the upper side; every rank computes the same list (so both partners of an exchange agree
+   on peer, length and position) *)
+Theorem C05_segments : forall counts me lo n2 r,
+  let off := cumul 0 counts in
+  me < length counts -> lo + n2 + r <= cum off (length counts) ->
+  seg_chain (cum off) (length counts) lo (lo + n2) r 0 (segments off me lo n2 r) /\
+  forall me', me' < length counts -> segments off me' lo n2 r = segments off me lo n2 r.
+Proof. exact segments_correct. Qed.
+Print Assumptions C05_segments.
+
+(* (c) the two Waitsome loops: for every legal pair of answer streams (every request index once, non-empty answers,
+   any grouping, any interleaving of receive and send completions) the loop ends with all answers consumed, every
+   peer record compare-exchanged exactly once and freed exactly once, never before its send completed; if the
+   records commute (they do when they cover disjoint parts of the array, C05_peers_commute) the array is the one
+   obtained in index order *)
+Theorem C05_waitsome_loops : forall (A : Type) (gt : A -> A -> bool) dir me (peers : list (peer A)) l0 ransw sansw,
+  let m := length peers in
+  legal_answers A peers ransw -> legal_answers A peers sansw ->
+  exists l' fl' calls,
+    wait_loop A gt (2 * m + 1) dir me peers ransw sansw m m (l0, repeat pflag0 m) [] = Some (l', fl', 0, calls) /\
+    length fl' = m /\
+    (forall k f, nth_error fl' k = Some f ->
+       f_received f = true /\ f_sent f = true /\ f_applied f = 1 /\ f_freed f = 1 /\ f_early f = false) /\
+    ((forall l j k, j <> k -> apply_k A gt dir me peers (apply_k A gt dir me peers l j) k
+                              = apply_k A gt dir me peers (apply_k A gt dir me peers l k) j) ->
+     l' = fold_left (apply_peer A gt dir me) peers l0).
+Proof. exact wait_loop_correct. Qed.
+Print Assumptions C05_waitsome_loops.
+
+Theorem C05_peers_commute : forall (A : Type) (gt : A -> A -> bool) dir me l (p q : peer A),
+  peer_ok A l p -> peer_ok A l q -> disjoint A p q ->
+  apply_peer A gt dir me (apply_peer A gt dir me l p) q = apply_peer A gt dir me (apply_peer A gt dir me l q) p.
+Proof. exact apply_peer_commute. Qed.
+Print Assumptions C05_peers_commute.
+
+(* the two partners of an exchange compute the two outputs of the sequential comparator, element by element;
+   the local loop does the same *)
+Theorem C05_halves_complementary : forall (A : Type) (gt : A -> A -> bool) dir L H i a b,
+  nth_error L i = Some a -> nth_error H i = Some b ->
+  nth_error (half_lo A gt dir L H) i = Some (fst (cex A gt dir a b)) /\
+  nth_error (half_hi A gt dir L H) i = Some (snd (cex A gt dir a b)).
+Proof. exact halves_complementary. Qed.
+Print Assumptions C05_halves_complementary.
+
+Theorem C05_local_comparator : forall (A : Type) (gt : A -> A -> bool) dir i j l k a b,
+  i <> j -> nth_error l i = Some a -> nth_error l j = Some b ->
+  nth_error (ce A gt dir i j l) k =
+  if k =? i then Some (fst (cex A gt dir a b)) else if k =? j then Some (snd (cex A gt dir a b)) else nth_error l k.
+Proof. exact ce_nth. Qed.
+Print Assumptions C05_local_comparator.
+
+(* hypotheses are satisfiable / the model computes *)
+Example C05_ex_sorts :
+  psort_seq [3;0;2;4;1] [5;3;9;1;7;2;8;4;6;0]%Z = [0;1;2;3;4;5;6;7;8;9]%Z /\
+  dist_psort Z Z.gtb zsort [3;0;2;4;1] [[5;3;9];[];[1;7];[2;8;4;6];[0]]%Z = [[0;1;2];[];[3;4];[5;6;7;8];[9]]%Z.
+Proof. split; vm_compute; reflexivity. Qed.
+Example C05_ex_answers : legal_answers Z (repeat (mkpeer 1 0 0 []) 3) [[2;0];[1]] /\ legal_answers Z (repeat (mkpeer 1 0 0 []) 3) [[1];[0];[2]].
+Proof.
+  split; (split; [intros a [<-|[<-|H]]; try discriminate; try (destruct H as [<-|[]]; discriminate); destruct H|]).
+  - simpl. apply perm_trans with [0;2;1]; [apply perm_swap|apply perm_skip, perm_swap].
+  - simpl. apply perm_swap.
+Qed.
